@@ -56,6 +56,11 @@ checks = {
    text=WHOLE + "decided is the encoder's discipline: each of the five segment fields is emitted as (field − loop-carried previous) with the previous updated to that same field under the same condition, generated column reset exactly at ';', field order 1-2-3-4-(5), ',' iff a segment precedes on the line, ';' per generated line; the Base64 alphabet and the VLQ bit constants (mask 31, shift 5, continuation 32, sign in LSB, LSB-first, termination) equal the specification; names are interned with index = length before append and write-free hits; Version is 3; AdvanceString counts \\n, \\r\\n and \\r as one line break each with exact index advance. The tests only check `mappings != \"\"`-style facts, so a lost update or reset survives them. VLQ arithmetic for every integer and decoded equality are not decided.",
    ref="DESIGN.md §3 C09",
    note="Trusted: go/ssa phi placement; exported field names of sourcemap.Mapping as anchors."),
+ "C10": dict(
+   technique="byte-set abstract interpretation of the lexer cursor (forward dataflow over 256-bit sets for current/look-ahead byte, predicates folded over all byte values, per-delimiter contexts) + SSA shape rules + panic-obligation enumeration + path-sensitive cycle feasibility for termination",
+   text=WHOLE + "decided for the lexer's single cursor: all panic sites of package lexer enumerated and discharged; Start read before any advance for every token construction (the two-character-operator defect found here is repaired by a fix: commit); identifier/number literals are input[entry:position] with the type derived from the same result; keyword lookup exact; after-newline flag set before every advance over a possible line break (tracked per byte value) and copied by every constructor; the skipper consumes only trivia and every dispatcher path consumes exactly its token's bytes; no feasible advance-free cycle and no feasible cycle at end of input; end of input is a fixed point and the EOF token is decided by position (defect found here, repaired by a fix: commit). Coverage-guided fuzzing samples byte strings; these rules cover every path of the scanners for every byte value.",
+   ref="DESIGN.md §3 C10",
+   note="Trusted: go/ssa; the abstract domain is path-insensitive at joins (sets are unioned) except in the cycle-feasibility rule, which is path-sensitive; conditions on non-cursor state are treated as both-ways feasible. Exact End positions and character (vs byte) columns are not decided."),
 }
 na_pending = "rule set designed in DESIGN.md §3 but not yet armed in xjscheck; not claimed until it is silent on the unchanged tree and shown to fire on seeded variants"
 all_ids = ["C%02d" % i for i in range(1, 17)]
